@@ -896,6 +896,100 @@ func (g *graph) hooks() {
 	}
 }
 
+// ---------------------------------------------------------------------------------------------------------------
+// (5) the file-name function of path (directory) mode: the ORDER of truncation / separator replacement / extension
+// in ClusterManagerConfig.MarshalJSON and RouterConfiguration.MarshalJSON (events in evaluation order, calls to
+// functions of the package followed)
+
+func fileNameOps(repo string, recv string) ([]string, error) {
+	dir := filepath.Join(repo, "pkg/config/v2")
+	fset := token.NewFileSet()
+	pkgs, err := parser.ParseDir(fset, dir, func(fi os.FileInfo) bool { return !strings.HasSuffix(fi.Name(), "_test.go") }, 0)
+	if err != nil {
+		return nil, err
+	}
+	funcs := map[string]*ast.FuncDecl{}
+	jsonConsts := map[string]bool{}
+	var marshal *ast.FuncDecl
+	for _, p := range pkgs {
+		for _, f := range p.Files {
+			for _, d := range f.Decls {
+				switch x := d.(type) {
+				case *ast.FuncDecl:
+					if x.Recv == nil {
+						funcs[x.Name.Name] = x
+					} else if x.Name.Name == "MarshalJSON" && len(x.Recv.List) == 1 && exprStr(x.Recv.List[0].Type) == recv {
+						marshal = x
+					}
+				case *ast.GenDecl:
+					if x.Tok != token.CONST {
+						continue
+					}
+					for _, sp := range x.Specs {
+						vs := sp.(*ast.ValueSpec)
+						for i, n := range vs.Names {
+							if i < len(vs.Values) {
+								if bl, ok := vs.Values[i].(*ast.BasicLit); ok && bl.Value == `".json"` {
+									jsonConsts[n.Name] = true
+								}
+							}
+						}
+					}
+				}
+			}
+		}
+	}
+	if marshal == nil {
+		return nil, fmt.Errorf("%s.MarshalJSON not found", recv)
+	}
+	var ops []string
+	var walk func(n ast.Node, depth int)
+	walk = func(n ast.Node, depth int) {
+		if n == nil {
+			return
+		}
+		// post-order: operands before the operation
+		var children []ast.Node
+		first := true
+		ast.Inspect(n, func(c ast.Node) bool {
+			if first {
+				first = false
+				return true
+			}
+			if c != nil {
+				children = append(children, c)
+			}
+			return false
+		})
+		for _, c := range children {
+			walk(c, depth)
+		}
+		switch x := n.(type) {
+		case *ast.SliceExpr:
+			if x.Low == nil && x.High != nil && exprStr(x.High) == "MaxFilePath" {
+				ops = append(ops, "FTrunc")
+			}
+		case *ast.CallExpr:
+			fn := exprStr(x.Fun)
+			if fn == "strings.ReplaceAll" && len(x.Args) == 3 && exprStr(x.Args[1]) == "sep" && exprStr(x.Args[2]) == `"_"` {
+				ops = append(ops, "FReplaceSep")
+			} else if fd, ok := funcs[fn]; ok && depth < 2 && fd.Body != nil {
+				walk(fd.Body, depth+1)
+			}
+		case *ast.BinaryExpr:
+			if x.Op == token.ADD {
+				if bl, ok := x.Y.(*ast.BasicLit); ok && bl.Value == `".json"` {
+					ops = append(ops, "FAppendJson")
+				} else if id, ok := x.Y.(*ast.Ident); ok && jsonConsts[id.Name] {
+					ops = append(ops, "FAppendJson")
+				}
+			}
+		}
+	}
+	walk(marshal.Body, 0)
+	return ops, nil
+}
+
 func genCfgTypes(repo string) (string, error) {
 	g := &graph{repo: repo, byName: map[string]*gstruct{}, byType: map[reflect.Type]*gstruct{}, ok: true, pkgAST: map[string]map[string]*ast.FuncDecl{}}
 	root := g.structOf(configmanager.VerifConfType(), "root")
@@ -1010,6 +1104,16 @@ func genCfgTypes(repo string) (string, error) {
 	b.WriteString("(* every struct type of the tree that transitively contains a v2.TLSConfig (go/ast scan): (type, dir) *)\n")
 	pairs("cfg_tls_bearing_ast", bearingNames)
 	ok := srcSwitches(repo, &b) && g.ok
+	b.WriteString("(* path-mode file naming: operations on the item name, in evaluation order *)\n")
+	fmt.Fprintf(&b, "Definition src_max_file_path : nat := %d.\n", v2.MaxFilePath)
+	for _, rn := range [][2]string{{"ClusterManagerConfig", "src_fname_ops_cluster"}, {"RouterConfiguration", "src_fname_ops_router"}} {
+		ops, err := fileNameOps(repo, rn[0])
+		if err != nil {
+			ok = false
+			fmt.Fprintf(&b, "(* %v *)\n", err)
+		}
+		fmt.Fprintf(&b, "Definition %s : list fop := [%s].\n", rn[1], strings.Join(ops, "; "))
+	}
 	for _, w := range g.warn {
 		fmt.Fprintf(&b, "(* warning: %s *)\n", strings.ReplaceAll(w, "*)", "* )"))
 	}
